@@ -2,6 +2,7 @@ import Toodee.Spec.Grid
 import Toodee.Impl.Sort
 import Toodee.Spec.IterAbs
 import Toodee.Proofs.OwnershipLemmas
+import Toodee.Properties.C17
 /-
   C11 — A panic in caller-supplied code leaves a valid array.
 
@@ -53,23 +54,30 @@ theorem C11_drain_col_drop_fault (m : Mode) (t : TD α) (h : t.Inv) (i : Nat) (h
   obtain ⟨t', dropped, p, h1, h2, h3⟩ := ow_dropLoop m t h i hi k d j [] fuel hb hc hnc hnr hwf hf
   exact ⟨t', dropped, p, by simpa using h1, h2, h3⟩
 
-/-- a panicking comparator: `sort_by_row`/`sort_by_col` and all their variants call caller code only inside the side sort, which
-    happens before `build_swap_trace` and before any write to the array.  The model of "comparator panics" is therefore the
-    prefix of the operation up to the side sort: it reads, never writes. -/
-def Acc.sortPrefix (a : Acc) (indexRow : Nat → Res Win) (row : Nat) : Res Unit := do
-  if ¬ row < a.numRows then throw .panic
-  let _ ← indexRow row
-  throw .panic          -- the comparator's panic unwinds out of `sort_by`; nothing below runs
+/-- **a panicking comparator / key function**: every sort method calls caller code only inside its side sort (`SideSort`), which
+    runs on a separate table before the array is written (`applyColPerm` / `applyRowPerm` are the only writers and come after it in
+    `Acc.sortRowWith` / `Acc.sortColWith`).  Whatever the receiver (owned array, third-party implementor, view), the row/column
+    index and the side-table limit: if the side sort panics the call ends in `panic` — never `ub` — and in the model a failed
+    in-place call returns no new buffer: the array is the one before the call (shape invariant and all cells as before, C01). -/
+theorem C11_sort_caller_panic (m : Mode) (lim : Nat) (side : SideSort α) (hp : ∀ keys, side keys = .error .panic) (k : Nat) :
+    (∀ (t : TD α), t.Inv →
+      (Recv.root t).run m lim t.data (.sortRow side k) = .error .panic ∧
+      (Recv.root t).run m lim t.data (.sortCol side k) = .error .panic ∧
+      (Recv.ext t).run m lim t.data (.sortRow side k) = .error .panic ∧
+      (Recv.ext t).run m lim t.data (.sortCol side k) = .error .panic) ∧
+    (∀ (v : VW) (buf : List α), v.Inv buf.length →
+      (Recv.vmut v).run m lim buf (.sortRow side k) = .error .panic ∧
+      (Recv.vmut v).run m lim buf (.sortCol side k) = .error .panic) := by
+  sorry
 
-theorem C11_sort_panic_leaves_buffer (a : Acc) (indexRow : Nat → Res Win) (row : Nat) :
-    ∃ e, a.sortPrefix indexRow row = .error e := by
-  unfold Acc.sortPrefix
-  by_cases hr : row < a.numRows
-  · rw [if_neg (by simpa using hr)]
-    cases indexRow row with
-    | error e => exact ⟨e, rfl⟩
-    | ok w => exact ⟨.panic, rfl⟩
-  · rw [if_pos hr]
-    exact ⟨.panic, rfl⟩
+/-- … and whenever a sort does write, its side sort had returned: a successful sort is a permutation of whole columns / rows by
+    the permutation the side sort produced (no partial state is observable in between: C16_sort_row_with, C17_sort_col_with) -/
+theorem C11_sort_writes_after_side (m : Mode) (lim : Nat) (v : VW) (buf : List α) (h : v.Inv buf.length) (side : SideSort α)
+    (hs : side.Sane) (k : Nat) (buf' : List α) :
+    ((Recv.vmut v).run m lim buf (.sortRow side k) = .ok buf' →
+      ∃ p, side (readWin buf (v.rowWin k)) = .ok p ∧ buf' = gather buf (v.mapCells (sortColsG p))) ∧
+    ((Recv.vmut v).run m lim buf (.sortCol side k) = .ok buf' →
+      ∃ p, side (v.colKeys buf k) = .ok p ∧ buf' = gather buf (v.mapCells (sortRowsG p))) := by
+  sorry
 
 end Toodee
